@@ -3,6 +3,7 @@ import ShellOp.Proofs.TransMetrics
 import ShellOp.Proofs.MetricsU
 import ShellOp.Proofs.MetricsSim
 import ShellOp.Proofs.MetricsSimU
+import ShellOp.Proofs.MetricsKey
 /-!
 # C16 — hook metrics: validated as a batch; grouped metrics replaced, not accumulated
 
@@ -566,6 +567,217 @@ example :
       { name := 22, action := "observe", value := some 4, buckets := true }] []).1
     st.uentries = [{ name := 20, key := c, val := 5 }, { name := 21, key := c, val := 5 },
                    { name := 22, key := c, val := 5, cnt := 2 }] := by decide
+
+/-! ## Concurrent hooks: the vault lock around lookup + Register + store
+
+`GetOrCreate{Counter,Gauge}Collector` run under the vault lock from the lookup to the store (lock
+skeletons `C16.GroupedVault.GetOrCreate*Collector`, tie T3), so `getOrCreateColl` is one atomic step
+and concurrent `SendBatch` calls are interleavings of such steps. -/
+
+/-- One atomic get-or-create of another hook does not take a collector away: whoever could obtain
+`(n, f)` before can obtain it afterwards (requests for one name ask for one type). -/
+theorem getOrCreateColl_keeps_obtainable (st st' : State) (n m : Nat) (f f' : Fam)
+    (hn : (getOrCreateColl st n f).isSome) (hstep : getOrCreateColl st m f' = some st')
+    (hty : m = n → f' = f) : (getOrCreateColl st' n f).isSome := by
+  unfold getOrCreateColl at hstep
+  split at hstep
+  · -- the collector of `m` exists: nothing changes
+    split at hstep
+    · cases hstep; exact hn
+    · cases hstep
+  · rename_i hm
+    split at hstep
+    · cases hstep
+    · rename_i hreg
+      cases hstep
+      by_cases hmn : m = n
+      · subst hmn
+        have hf := hty rfl
+        subst hf
+        have hl : (st.colls ++ [(m, f')]).lookup m = some f' := by
+          rw [List.lookup_append, hm]; simp
+        simp [getOrCreateColl, hl]
+      · have hnm : (n == m) = false := by simpa using fun h => hmn h.symm
+        have hl : (st.colls ++ [(m, f')]).lookup n = st.colls.lookup n := by
+          rw [List.lookup_append]
+          cases h : st.colls.lookup n <;> simp [List.lookup, hnm]
+        have hr : State.registered { st with colls := st.colls ++ [(m, f')] } n = st.registered n := by
+          have : (m == n) = false := by simpa using hmn
+          simp [State.registered, List.any_append, this]
+        unfold getOrCreateColl at hn ⊢
+        rw [hl, hr]
+        cases hc : st.colls.lookup n with
+        | some f0 =>
+          rw [hc] at hn
+          by_cases hf0 : f0 = f
+          · simp [hf0]
+          · simp [hf0] at hn
+        | none =>
+          rw [hc] at hn
+          by_cases hrg : st.registered n = true
+          · simp [hrg] at hn
+          · simp [hrg]
+
+/-- **C16.m (concurrent first reports)** For every set of requests `(name, type)` that the hooks of
+concurrently running batches make — each obtainable in the state the batches find, one type per
+name — and EVERY order in which the vault lock serialises them, every single request obtains its
+collector: no hook's series is dropped because another hook created the collector of the same new
+name first. -/
+theorem concurrent_creators_all_obtain (reqs : List (Nat × Fam)) (st : State)
+    (hall : ∀ r ∈ reqs, (getOrCreateColl st r.1 r.2).isSome)
+    (hty : ∀ r ∈ reqs, ∀ r' ∈ reqs, r.1 = r'.1 → r.2 = r'.2) :
+    ∃ st', reqs.foldlM (fun s r => getOrCreateColl s r.1 r.2) st = some st' ∧
+      ∀ r ∈ reqs, (getOrCreateColl st' r.1 r.2).isSome := by
+  induction reqs generalizing st with
+  | nil => exact ⟨st, rfl, by simp⟩
+  | cons r rest ih =>
+    have hr := hall r (by simp)
+    obtain ⟨st1, h1⟩ := Option.isSome_iff_exists.mp hr
+    have hkeep : ∀ q ∈ r :: rest, (getOrCreateColl st1 q.1 q.2).isSome := fun q hq =>
+      getOrCreateColl_keeps_obtainable st st1 q.1 r.1 q.2 r.2 (hall q hq) h1
+        (fun e => hty r (by simp) q hq e)
+    obtain ⟨st', hf, hall'⟩ := ih st1 (fun q hq => hkeep q (List.mem_cons_of_mem _ hq))
+      (fun a ha b hb => hty a (List.mem_cons_of_mem _ ha) b (List.mem_cons_of_mem _ hb))
+    refine ⟨st', by simp [List.foldlM, h1, hf], ?_⟩
+    intro q hq
+    rcases List.mem_cons.mp hq with rfl | hq
+    · -- `r` itself: still obtainable after the rest ran
+      clear hall'
+      have : ∀ (l : List (Nat × Fam)) (s s' : State), (getOrCreateColl s q.1 q.2).isSome →
+          (∀ a ∈ l, a.1 = q.1 → a.2 = q.2) →
+          l.foldlM (fun s r => getOrCreateColl s r.1 r.2) s = some s' →
+          (getOrCreateColl s' q.1 q.2).isSome := by
+        intro l
+        induction l with
+        | nil => intro s s' h _ hf; simp [List.foldlM] at hf; subst hf; exact h
+        | cons a l ihl =>
+          intro s s' h hq hf
+          simp only [List.foldlM, Option.bind_eq_bind] at hf
+          cases ha : getOrCreateColl s a.1 a.2 with
+          | none => simp [ha] at hf
+          | some s1 =>
+            simp only [ha, Option.bind_some] at hf
+            exact ihl s1 s' (getOrCreateColl_keeps_obtainable s s1 q.1 a.1 q.2 a.2 h ha (hq a (by simp)))
+              (fun b hb => hq b (List.mem_cons_of_mem _ hb)) hf
+      exact this rest st1 st' (hkeep q (by simp))
+        (fun a ha e => hty a (List.mem_cons_of_mem _ ha) q (by simp) e) hf
+    · exact hall' q hq
+
+/-- non-vacuity: two hooks ask for the same new gauge and a counter, in both orders. -/
+example : ([(5, Fam.gauge), (6, Fam.counter), (5, Fam.gauge)].foldlM (fun s r => getOrCreateColl s r.1 r.2) ({} : State)).isSome
+    ∧ ([(5, Fam.gauge), (5, Fam.gauge), (6, Fam.counter)].foldlM (fun s r => getOrCreateColl s r.1 r.2) ({} : State)).isSome := by
+  decide
+
+/-- What the lock is for: with the lookup and `Register` + store as two separate steps, two hooks
+that both look up a new name before either registers it — the second `Register` fails and that
+hook's series is dropped. -/
+theorem unlocked_register_window_witness :
+    lookupColl {} 5 = none ∧
+    ((registerColl {} 5 .gauge).bind fun st => registerColl st 5 .gauge) = none := by decide
+
+/-! ## Series identity: what is hashed
+
+`ConstGaugeCollector.Set` / `ConstCounterCollector.Add` key a series by
+`HashLabelValues(LabelValues(labels, labelNames))` (skeleton `C16.HashLabelValues`, tie T3: every
+value and the separator are written, nothing is skipped). The fnv sum itself is modelled as
+injective; what is hashed is proved injective here. -/
+
+theorem hash_sep_split (a b r r' : List Nat) (ha : 255 ∉ a) (hb : 255 ∉ b)
+    (h : a ++ 255 :: r = b ++ 255 :: r') : a = b ∧ r = r' := by
+  induction a generalizing b with
+  | nil =>
+    cases b with
+    | nil => simpa using h
+    | cons y b => simp at h; simp [← h.1] at hb
+  | cons x a ih =>
+    cases b with
+    | nil => simp at h; simp [h.1] at ha
+    | cons y b =>
+      simp only [List.cons_append, List.cons.injEq] at h
+      have := ih b (fun hx => ha (List.mem_cons_of_mem _ hx)) (fun hx => hb (List.mem_cons_of_mem _ hx)) h.2
+      exact ⟨by rw [h.1, this.1], this.2⟩
+
+/-- **C16.h** The byte string handed to the hasher determines the list of label values — position by
+position, empty values included — for values that do not contain the separator byte 255 (no UTF-8
+string does): two different value lists of one collector never share a collection key by
+construction of the key. -/
+theorem hashInput_injective (vals vals' : List (List Nat))
+    (h1 : ∀ v ∈ vals, 255 ∉ v) (h2 : ∀ v ∈ vals', 255 ∉ v)
+    (h : hashInput vals = hashInput vals') : vals = vals' := by
+  induction vals generalizing vals' with
+  | nil =>
+    cases vals' with
+    | nil => rfl
+    | cons w ws => simp [hashInput] at h
+  | cons v vs ih =>
+    cases vals' with
+    | nil => simp [hashInput] at h
+    | cons w ws =>
+      simp only [hashInput, List.flatMap_cons, List.append_assoc, List.singleton_append] at h
+      have := hash_sep_split v w _ _ (h1 v (by simp)) (h2 w (by simp)) h
+      rw [this.1, ih ws (fun x hx => h1 x (List.mem_cons_of_mem _ hx))
+        (fun x hx => h2 x (List.mem_cons_of_mem _ hx)) this.2]
+
+/-- non-vacuity, and the boundary the theorem is about: the values `["h", "web-1", ""]` and
+`["h", "", "web-1"]` (one label empty — which one differs) are hashed differently … -/
+example : hashInput [[104], [119, 101, 98], []] ≠ hashInput [[104], [], [119, 101, 98]] := by decide
+
+/-- … and would collide if empty values were skipped. -/
+theorem skip_empty_collision_witness :
+    hashInputSkipEmpty [[104], [119, 101, 98], []] = hashInputSkipEmpty [[104], [], [119, 101, 98]] := by decide
+
+/-- the values under the collector's label names: a label the series does not carry reads as empty,
+so a series written with an explicit empty value is the series without that label. -/
+example : labelValues [1, 3, 4] [(1, 7), (4, 9)] = [7, 0, 9]
+    ∧ labelValues [1, 3, 4] [(1, 7), (3, 0), (4, 9)] = labelValues [1, 3, 4] [(1, 7), (4, 9)] := by decide
+
+
+/-- **C16.k (series identity across label shapes)** For the label sets of two operations on one
+grouped metric (as `mergeLabels` hands them over) and ANY list of label names of the collector that
+covers both (whatever `UpdateLabels` has grown it to): the value vectors `LabelValues` computes —
+absent label = "" — are equal exactly when the label sets without their empty values are equal.
+So the model's key `gkey` identifies exactly the series the code's collection key identifies. -/
+theorem labelValues_eq_iff_gkey_eq (names : List Nat) (l l' : Labels)
+    (h : KeysSorted l) (h' : KeysSorted l')
+    (hc : ∀ x ∈ l, x.1 ∈ names) (hc' : ∀ x ∈ l', x.1 ∈ names) :
+    labelValues names l = labelValues names l' ↔ gkey l = gkey l' := by
+  have hout : ∀ (m : Labels), (∀ x ∈ m, x.1 ∈ names) → ∀ k, k ∉ names → m.lookup k = none := by
+    intro m hm k hk
+    rw [List.lookup_eq_none_iff]
+    intro x hx
+    simp only [bne_iff_ne, ne_eq]
+    intro e
+    exact hk (e ▸ hm x hx)
+  constructor
+  · intro hv
+    apply sorted_nonzero_ext _ _ (gkey_sorted l h) (gkey_sorted l' h') (gkey_nonzero l) (gkey_nonzero l')
+    intro k
+    rw [lookupD_gkey l h, lookupD_gkey l' h']
+    by_cases hk : k ∈ names
+    · have := List.map_inj_left.mp hv k hk
+      exact this
+    · simp [lookupD, hout l hc k hk, hout l' hc' k hk]
+  · intro hg
+    apply List.map_inj_left.mpr
+    intro k _
+    have := congrArg (fun m => lookupD m k) hg
+    simp only [lookupD_gkey l h, lookupD_gkey l' h'] at this
+    exact this
+
+/-- the label sets the code passes on are of that kind: `mergeLabels` yields strictly increasing
+label names (so the hypotheses of `labelValues_eq_iff_gkey_eq` are met by every operation). -/
+theorem merged_labels_sorted (opLabels common : Labels) : KeysSorted (mergeLabels opLabels common) :=
+  mergeLabels_sorted opLabels common
+
+/-- non-vacuity on the boundary: under the names `[a, b, hook]` the sets `{a=v, hook}` and
+`{b=v, hook}` (equal values under different names) have different value vectors and different keys;
+an explicit empty value changes neither. -/
+example : labelValues [2, 3, 1] [(1, 7), (2, 9)] ≠ labelValues [2, 3, 1] [(1, 7), (3, 9)]
+    ∧ gkey [(1, 7), (2, 9)] ≠ gkey [(1, 7), (3, 9)]
+    ∧ labelValues [2, 3, 1] [(1, 7), (2, 9), (3, 0)] = labelValues [2, 3, 1] [(1, 7), (2, 9)]
+    ∧ gkey [(1, 7), (2, 9), (3, 0)] = gkey [(1, 7), (2, 9)]
+    ∧ KeysSorted (mergeLabels [(3, 0), (2, 9)] [(1, 7)]) := by
+  refine ⟨by decide, by decide, by decide, by decide, merged_labels_sorted _ _⟩
 
 /-! ## Tie T4: the validation of the model is the code
 
